@@ -294,6 +294,20 @@ func runWatchScenario(t *testing.T, sc wScenario) (res scenarioResult) {
 					other := append([]byte(nil), cookie...)
 					other[a.N%8] ^= 0x5a
 					bm = binary.BigEndian.AppendUint64(other, uint64(a.Pos))
+				case "overlong":
+					// a genuine bookmark with something appended (a second bookmark, a few bytes): malformed, to be refused
+					if len(allBms) == 0 {
+						wcancel()
+
+						continue
+					}
+
+					bm = append([]byte(nil), allBms[a.N%len(allBms)]...)
+					if a.Pos%2 == 0 {
+						bm = append(bm, allBms[(a.N/7)%len(allBms)]...)
+					} else {
+						bm = append(bm, make([]byte, 1+a.Pos%8)...)
+					}
 				case "garbage":
 					bm = make([]byte, a.N%24)
 					for i := range bm {
@@ -756,10 +770,14 @@ func genWatchScenario(r *rng, n int, handle string) wScenario {
 				a.Start = "foreign"
 				a.N = r.intn(8)
 				a.Pos = int64(r.intn(6))
-			default:
+			case y < 97:
 				a.Start = "garbage"
 				a.N = r.intn(24)
 				a.Pos = int64(r.next())
+			default:
+				a.Start = "overlong"
+				a.N = r.intn(1000)
+				a.Pos = int64(r.intn(16))
 			}
 
 			// the initial bookmark (Noop) of a tail / bookmark start must encode the adjusted start position
